@@ -6,7 +6,7 @@ NA['C01'] = ('power balance needs numerical integration of the reported pattern 
 
 check('C12', 'model_checking',
       'TLC checks CountFormula, ObjectOrder, SegJoint, JoinedIffSamePoint, JunctionCount on every configuration of spec/Topology.tla '
-      '(2 objects exhaustive, 3 objects exhaustive in the thorough tier, up to 6 objects by simulation); every final state is replayed into '
+      '(2 objects exhaustive, 3 and -- with two segments and automatic tags -- 4 objects exhaustive in the thorough tier, up to 6 objects by simulation); every final state is replayed into '
       'the real Mininec constructor under four concretisations of the point ids (exact, jitter below the matching tolerance, near-miss 3 '
       'tolerances away, near-miss 1.25 tolerances along a space diagonal) and the real pulse table, end_segs, per-object pulse lists, the '
       'count formula, gap-free numbering, joint coordinates and the ANTENNA GEOMETRY / WIRE blocks of the real report are compared with the '
